@@ -198,6 +198,17 @@ class Check:
                 if c2.get(cs[0]) is not None: c[cs[0]] = c2[cs[0]]
             ctx.setdefault('cov_extra', {})['rerun_after_watchdog'] = len(again)
 
+        # a case whose traces disagree is run once more on an otherwise idle machine before it is judged: a real disagreement is
+        # deterministic and shows again; one caused by a timing bound of the harness on the overloaded machine does not
+        suspects = [cs for cs in cases if self.judge(cs, c.get(cs[0]), m.get(cs[0]))[0] != 'ok']
+        if suspects and len(suspects) <= 400:
+            c3 = run_sharded(ctx['cexe'], suspects, os.path.join(OUT, self.pid), 'recheck_c', nshards=2, args=ctx.get('cargs', ()))
+            cleared = 0
+            for cs in suspects:
+                if c3.get(cs[0]) is not None and self.judge(cs, c3.get(cs[0]), m.get(cs[0]))[0] == 'ok':
+                    c[cs[0]] = c3[cs[0]]; cleared += 1
+            ctx.setdefault('cov_extra', {})['rechecked_alone'] = len(suspects); ctx['cov_extra']['cleared_by_recheck'] = cleared
+
         # 5. classify
         known = [k for k in load_known() if k.get('property') == self.pid and k['kind'] == 'known']
         distinct = set(); nontriv = 0; corr_bad = []; prop_bad = []
